@@ -78,6 +78,13 @@ pub trait Group:
     fn c_bytes(c: &<Self as Compressable>::Compressed) -> [u8; 32];
     /// a compressed handle from raw bytes (not necessarily decodable)
     fn c_from(b: [u8; 32]) -> <Self as Compressable>::Compressed;
+    /// the proof's serde form through bincode
+    fn serde_out(p: &RangeProof<Self>) -> Result<Vec<u8>, String>;
+    fn serde_in(b: &[u8]) -> Result<RangeProof<Self>, String>;
+    /// extension degree announced by proof bytes
+    fn ext_from_bytes(b: &[u8]) -> Result<usize, ProofError>;
+    /// extension degree a proof object reports
+    fn ext_of(p: &RangeProof<Self>) -> usize;
 }
 
 impl Group for RistrettoPoint {
@@ -168,6 +175,22 @@ impl Group for RistrettoPoint {
 
     fn c_from(b: [u8; 32]) -> <Self as Compressable>::Compressed {
         <<Self as Compressable>::Compressed as FixedBytesRepr>::from_fixed_bytes(b)
+    }
+
+    fn serde_out(p: &RangeProof<Self>) -> Result<Vec<u8>, String> {
+        bincode::serialize(p).map_err(|e| e.to_string())
+    }
+
+    fn serde_in(b: &[u8]) -> Result<RangeProof<Self>, String> {
+        bincode::deserialize(b).map_err(|e| e.to_string())
+    }
+
+    fn ext_from_bytes(b: &[u8]) -> Result<usize, ProofError> {
+        RangeProof::<Self>::extension_degree_from_proof_bytes(b).map(|e| e as usize)
+    }
+
+    fn ext_of(p: &RangeProof<Self>) -> usize {
+        p.extension_degree() as usize
     }
 }
 
@@ -273,5 +296,21 @@ impl Group for FreePoint {
 
     fn c_from(b: [u8; 32]) -> <Self as Compressable>::Compressed {
         <<Self as Compressable>::Compressed as FixedBytesRepr>::from_fixed_bytes(b)
+    }
+
+    fn serde_out(p: &RangeProof<Self>) -> Result<Vec<u8>, String> {
+        bincode::serialize(p).map_err(|e| e.to_string())
+    }
+
+    fn serde_in(b: &[u8]) -> Result<RangeProof<Self>, String> {
+        bincode::deserialize(b).map_err(|e| e.to_string())
+    }
+
+    fn ext_from_bytes(b: &[u8]) -> Result<usize, ProofError> {
+        RangeProof::<Self>::extension_degree_from_proof_bytes(b).map(|e| e as usize)
+    }
+
+    fn ext_of(p: &RangeProof<Self>) -> usize {
+        p.extension_degree() as usize
     }
 }
